@@ -22,6 +22,7 @@ class Variant:
 _NEEDED = [
     'rsocket.frame', 'rsocket.frame_helpers', 'rsocket.frame_parser', 'rsocket.frame_fragment_cache',
     'rsocket.frame_fragmenter', 'rsocket.helpers', 'rsocket.payload', 'rsocket.transports.tcp',
+    'rsocket.transports.abstract_messaging',
     'rsocket.extensions.composite_metadata', 'rsocket.extensions.helpers', 'rsocket.extensions.mimetypes',
     'rsocket.extensions.authentication', 'rsocket.extensions.authentication_types', 'rsocket.extensions.routing',
     'rsocket.extensions.tagging', 'rsocket.extensions.stream_data_mimetype', 'rsocket.extensions.authentication_content',
